@@ -224,107 +224,105 @@ fn in_bounds(k: &[u8; 2], sk: u8, s: &[u8; 2], ek: u8, e: &[u8; 2]) -> bool {
 }
 
 fn range_case(sk: u8, ek: u8) {
-    let keys: [[u8; 2]; 3] = kani::any();
-    kani::assume(keys[0] < keys[1] && keys[1] < keys[2]);
-    tree_single_leaf(&keys, 3);
+    let k2: [[u8; 2]; 2] = kani::any();
+    kani::assume(k2[0] < k2[1]);
+    let keys = [k2[0], k2[1], [0, 0]];
+    tree_single_leaf(&keys, 2);
     let b = mk_bucket(3, false);
     let s: [u8; 2] = kani::any();
     let e: [u8; 2] = kani::any();
     let mut r = b.range(RB { s: bound_of(sk, &s), e: bound_of(ek, &e) });
-    // four unconditional calls (conditional calls would fork the cursor state in the harness itself)
+    // three unconditional calls (conditional calls would fork the cursor state in the harness itself)
     let d0 = r.next();
     let d1 = r.next();
     let d2 = r.next();
-    let d3 = r.next();
-    let got = [key_of(&d0), key_of(&d1), key_of(&d2), key_of(&d3)];
+    let got = [key_of(&d0), key_of(&d1), key_of(&d2)];
     // expected: the keys within the bounds, in order, then nothing
-    let mut exp: [Option<[u8; 2]>; 4] = [None; 4];
+    let mut exp: [Option<[u8; 2]>; 3] = [None; 3];
     let mut n = 0;
     let mut i = 0;
-    while i < 3 {
-        if in_bounds(&keys[i], sk, &s, ek, &e) {
-            exp[n] = Some(keys[i]);
+    while i < 2 {
+        if in_bounds(&k2[i], sk, &s, ek, &e) {
+            exp[n] = Some(k2[i]);
             n += 1;
         }
         i += 1;
     }
     let mut j = 0;
-    while j < 4 {
+    while j < 3 {
         assert!(got[j] == exp[j], "a range scan yields exactly the entries within its bounds, in order, and then nothing");
         j += 1;
     }
-    if sk != 2 && ek != 2 {
-        kani::cover!(n == 1 && exp[0] == Some(keys[1]));
-    }
     if sk != 2 {
-        kani::cover!(keys[1] == s);
-        kani::cover!(s < keys[0]);
+        kani::cover!(n == 1 && exp[0] == Some(k2[1]));
+        kani::cover!(k2[1] == s);
+        kani::cover!(s < k2[0]);
     }
+    kani::cover!(n == 2);
     std::mem::forget(d0);
     std::mem::forget(d1);
     std::mem::forget(d2);
-    std::mem::forget(d3);
     std::mem::forget(r);
     std::mem::forget(b);
 }
 
-// @ob props=C08,C07 tier=quick cap=900 fns=Range::next,Cursor::seek,Cursor::next,Cursor::current,Bucket::range bound="root leaf page with 3 sorted symbolic 2-byte keys; start bound included, end bound included, both bound keys symbolic" unwind=5
+// @ob props=C08,C07 tier=quick cap=900 mem=10 fns=Range::next,Cursor::seek,Cursor::next,Cursor::current,Bucket::range bound="root leaf page with 2 sorted symbolic 2-byte keys; three calls of next(); start bound included, end bound included, both bound keys symbolic" unwind=5
 #[kani::proof]
 #[kani::unwind(5)]
 fn range_included_included() {
     range_case(0, 0);
 }
 
-// @ob props=C08,C07 tier=quick cap=900 fns=Range::next,Cursor::seek,Cursor::next,Cursor::current,Bucket::range bound="root leaf page with 3 sorted symbolic 2-byte keys; start bound included, end bound excluded, both bound keys symbolic" unwind=5
+// @ob props=C08,C07 tier=quick cap=900 mem=10 fns=Range::next,Cursor::seek,Cursor::next,Cursor::current,Bucket::range bound="root leaf page with 2 sorted symbolic 2-byte keys; three calls of next(); start bound included, end bound excluded, both bound keys symbolic" unwind=5
 #[kani::proof]
 #[kani::unwind(5)]
 fn range_included_excluded() {
     range_case(0, 1);
 }
 
-// @ob props=C08,C07 tier=quick cap=900 fns=Range::next,Cursor::seek,Cursor::next,Cursor::current,Bucket::range bound="root leaf page with 3 sorted symbolic 2-byte keys; start bound included, end bound unbounded, both bound keys symbolic" unwind=5
+// @ob props=C08,C07 tier=quick cap=900 mem=10 fns=Range::next,Cursor::seek,Cursor::next,Cursor::current,Bucket::range bound="root leaf page with 2 sorted symbolic 2-byte keys; three calls of next(); start bound included, end bound unbounded, both bound keys symbolic" unwind=5
 #[kani::proof]
 #[kani::unwind(5)]
 fn range_included_unbounded() {
     range_case(0, 2);
 }
 
-// @ob props=C08,C07 tier=quick cap=900 fns=Range::next,Cursor::seek,Cursor::next,Cursor::current,Bucket::range bound="root leaf page with 3 sorted symbolic 2-byte keys; start bound excluded, end bound included, both bound keys symbolic" unwind=5
+// @ob props=C08,C07 tier=quick cap=900 mem=10 fns=Range::next,Cursor::seek,Cursor::next,Cursor::current,Bucket::range bound="root leaf page with 2 sorted symbolic 2-byte keys; three calls of next(); start bound excluded, end bound included, both bound keys symbolic" unwind=5
 #[kani::proof]
 #[kani::unwind(5)]
 fn range_excluded_included() {
     range_case(1, 0);
 }
 
-// @ob props=C08,C07 tier=quick cap=900 fns=Range::next,Cursor::seek,Cursor::next,Cursor::current,Bucket::range bound="root leaf page with 3 sorted symbolic 2-byte keys; start bound excluded, end bound excluded, both bound keys symbolic" unwind=5
+// @ob props=C08,C07 tier=quick cap=900 mem=10 fns=Range::next,Cursor::seek,Cursor::next,Cursor::current,Bucket::range bound="root leaf page with 2 sorted symbolic 2-byte keys; three calls of next(); start bound excluded, end bound excluded, both bound keys symbolic" unwind=5
 #[kani::proof]
 #[kani::unwind(5)]
 fn range_excluded_excluded() {
     range_case(1, 1);
 }
 
-// @ob props=C08,C07 tier=quick cap=900 fns=Range::next,Cursor::seek,Cursor::next,Cursor::current,Bucket::range bound="root leaf page with 3 sorted symbolic 2-byte keys; start bound excluded, end bound unbounded, both bound keys symbolic" unwind=5
+// @ob props=C08,C07 tier=quick cap=900 mem=10 fns=Range::next,Cursor::seek,Cursor::next,Cursor::current,Bucket::range bound="root leaf page with 2 sorted symbolic 2-byte keys; three calls of next(); start bound excluded, end bound unbounded, both bound keys symbolic" unwind=5
 #[kani::proof]
 #[kani::unwind(5)]
 fn range_excluded_unbounded() {
     range_case(1, 2);
 }
 
-// @ob props=C08,C07 tier=quick cap=900 fns=Range::next,Cursor::seek,Cursor::next,Cursor::current,Bucket::range bound="root leaf page with 3 sorted symbolic 2-byte keys; start bound unbounded, end bound included, both bound keys symbolic" unwind=5
+// @ob props=C08,C07 tier=quick cap=900 mem=10 fns=Range::next,Cursor::seek,Cursor::next,Cursor::current,Bucket::range bound="root leaf page with 2 sorted symbolic 2-byte keys; three calls of next(); start bound unbounded, end bound included, both bound keys symbolic" unwind=5
 #[kani::proof]
 #[kani::unwind(5)]
 fn range_unbounded_included() {
     range_case(2, 0);
 }
 
-// @ob props=C08,C07 tier=quick cap=900 fns=Range::next,Cursor::seek,Cursor::next,Cursor::current,Bucket::range bound="root leaf page with 3 sorted symbolic 2-byte keys; start bound unbounded, end bound excluded, both bound keys symbolic" unwind=5
+// @ob props=C08,C07 tier=quick cap=900 mem=10 fns=Range::next,Cursor::seek,Cursor::next,Cursor::current,Bucket::range bound="root leaf page with 2 sorted symbolic 2-byte keys; three calls of next(); start bound unbounded, end bound excluded, both bound keys symbolic" unwind=5
 #[kani::proof]
 #[kani::unwind(5)]
 fn range_unbounded_excluded() {
     range_case(2, 1);
 }
 
-// @ob props=C08,C07 tier=quick cap=900 fns=Range::next,Cursor::seek,Cursor::next,Cursor::current,Bucket::range bound="root leaf page with 3 sorted symbolic 2-byte keys; start bound unbounded, end bound unbounded, both bound keys symbolic" unwind=5
+// @ob props=C08,C07 tier=quick cap=900 mem=10 fns=Range::next,Cursor::seek,Cursor::next,Cursor::current,Bucket::range bound="root leaf page with 2 sorted symbolic 2-byte keys; three calls of next(); start bound unbounded, end bound unbounded, both bound keys symbolic" unwind=5
 #[kani::proof]
 #[kani::unwind(5)]
 fn range_unbounded_unbounded() {
@@ -408,4 +406,155 @@ pub(crate) fn bucket_value(root_page: u64, next_int: u64) -> [u8; 16] {
     let a = root_page.to_le_bytes();
     let b = next_int.to_le_bytes();
     [a[0], a[1], a[2], a[3], a[4], a[5], a[6], a[7], b[0], b[1], b[2], b[3], b[4], b[5], b[6], b[7]]
+}
+
+// ---- C07: a write transaction's scans see its own puts and deletes (node overlay over the mapped pages)
+// @ob props=C07,C01 tier=quick cap=900 mem=16 fns=Cursor::next,Cursor::seek_first,Cursor::current,InnerBucket::page_node,InnerBucket::put,InnerBucket::node,PageNode::val,PageNode::len bound="root leaf page with 2 sorted symbolic keys; one put of a symbolic key (new or existing), then a full scan" unwind=5
+#[kani::proof]
+#[kani::unwind(5)]
+fn cursor_scan_after_put() {
+    let k2: [[u8; 2]; 2] = kani::any();
+    kani::assume(k2[0] < k2[1]);
+    tree_single_leaf(&[k2[0], k2[1], [0, 0]], 2);
+    let b = mk_bucket(3, true);
+    let k: [u8; 2] = kani::any();
+    let r = b.put(k, [42u8]);
+    assert!(r.is_ok());
+    std::mem::forget(r);
+    // expected sequence
+    let hit = k == k2[0] || k == k2[1];
+    let mut exp = [[0u8; 2]; 3];
+    let mut n = 0;
+    let mut placed = false;
+    let mut i = 0;
+    while i < 2 {
+        if !placed && k <= k2[i] {
+            exp[n] = k;
+            n += 1;
+            placed = true;
+        }
+        if k2[i] != k {
+            exp[n] = k2[i];
+            n += 1;
+        }
+        i += 1;
+    }
+    if !placed {
+        exp[n] = k;
+        n += 1;
+    }
+    assert!(n == if hit { 2 } else { 3 });
+    let mut c = b.cursor();
+    let mut j = 0;
+    while j < 3 {
+        if j < n {
+            let d = c.next();
+            assert!(key_of(&d) == Some(exp[j]), "the scan reflects the transaction's own put, in order");
+            if exp[j] == k {
+                if let Some(Data::KeyValue(kv)) = &d {
+                    assert!(kv.value().len() == 1 && kv.value()[0] == 42, "with the value just written");
+                }
+            }
+            std::mem::forget(d);
+        }
+        j += 1;
+    }
+    let e = c.next();
+    assert!(e.is_none());
+    kani::cover!(hit);
+    kani::cover!(!hit && k < k2[0]);
+    std::mem::forget(c);
+    std::mem::forget(b);
+}
+
+// @ob props=C07,C01 tier=quick cap=900 mem=16 fns=Cursor::next,Cursor::seek_first,Cursor::current,InnerBucket::page_node,InnerBucket::delete,InnerBucket::node bound="root leaf page with 3 sorted symbolic keys; one delete (index symbolic), then a full scan" unwind=5
+#[kani::proof]
+#[kani::unwind(5)]
+fn cursor_scan_after_delete() {
+    let keys: [[u8; 2]; 3] = kani::any();
+    kani::assume(keys[0] < keys[1] && keys[1] < keys[2]);
+    tree_single_leaf(&keys, 3);
+    let b = mk_bucket(3, true);
+    let idx: usize = kani::any();
+    kani::assume(idx < 3);
+    let r = b.delete(keys[idx]);
+    assert!(r.is_ok());
+    std::mem::forget(r);
+    let mut c = b.cursor();
+    let mut i = 0;
+    while i < 3 {
+        if i != idx {
+            let d = c.next();
+            assert!(key_of(&d) == Some(keys[i]), "the scan reflects the transaction's own delete");
+            std::mem::forget(d);
+        }
+        i += 1;
+    }
+    let e = c.next();
+    assert!(e.is_none());
+    std::mem::forget(c);
+    std::mem::forget(b);
+}
+
+// ---- C07: two leaves under a branch; the transaction empties the FIRST leaf, the scan must still deliver the second
+// @ob props=C07 tier=quick cap=1200 mem=16 fns=Cursor::next,Cursor::seek_first,Cursor::current,InnerBucket::page_node,InnerBucket::delete,InnerBucket::node,PageNode::val bound="branch page over two leaf pages with 2 symbolic keys each; both keys of the first leaf deleted in the transaction; then a full scan" unwind=5
+#[kani::proof]
+#[kani::unwind(5)]
+fn cursor_scan_after_emptying_first_leaf() {
+    let a: [[u8; 2]; 2] = kani::any();
+    let b2: [[u8; 2]; 2] = kani::any();
+    kani::assume(a[0] < a[1] && a[1] < b2[0] && b2[0] < b2[1]);
+    tree_two_leaves(&a, &b2);
+    let b = mk_bucket(3, true);
+    let r = b.delete(a[0]);
+    assert!(r.is_ok());
+    std::mem::forget(r);
+    let r = b.delete(a[1]);
+    assert!(r.is_ok());
+    std::mem::forget(r);
+    let mut c = b.cursor();
+    let d = c.next();
+    assert!(key_of(&d) == Some(b2[0]), "JV-C07-EMPTY-LEAF: the scan skips the emptied leaf and delivers the entries of the next one");
+    std::mem::forget(d);
+    let d = c.next();
+    assert!(key_of(&d) == Some(b2[1]));
+    std::mem::forget(d);
+    let e = c.next();
+    assert!(e.is_none());
+    std::mem::forget(c);
+    std::mem::forget(b);
+}
+
+// ---- C07: two leaves; put into the second leaf, scan crosses from an untouched page into a materialised node
+// @ob props=C07,C08 tier=quick cap=1200 mem=16 fns=Cursor::next,Cursor::seek_first,Cursor::current,InnerBucket::page_node,InnerBucket::put,InnerBucket::node,Node::insert_child bound="branch page over two leaf pages with 2 symbolic keys each; one new key put above the second leaf's first key; then a full scan" unwind=5
+#[kani::proof]
+#[kani::unwind(5)]
+fn cursor_scan_mixed_page_and_node() {
+    let a: [[u8; 2]; 2] = kani::any();
+    let b2: [[u8; 2]; 2] = kani::any();
+    kani::assume(a[0] < a[1] && a[1] < b2[0] && b2[0] < b2[1]);
+    tree_two_leaves(&a, &b2);
+    let b = mk_bucket(3, true);
+    let k: [u8; 2] = kani::any();
+    kani::assume(k > b2[0] && k != b2[1]);
+    let r = b.put(k, [42u8]);
+    assert!(r.is_ok());
+    std::mem::forget(r);
+    let exp = if k < b2[1] { [a[0], a[1], b2[0], k, b2[1]] } else { [a[0], a[1], b2[0], b2[1], k] };
+    let mut c = b.cursor();
+    let mut i = 0;
+    while i < 5 {
+        let d = c.next();
+        assert!(key_of(&d) == Some(exp[i]), "untouched pages and materialised nodes are scanned as one ordered sequence");
+        std::mem::forget(d);
+        i += 1;
+    }
+    let e = c.next();
+    assert!(e.is_none());
+    // and a point lookup through the untouched leaf still works
+    let g = b.get(a[1]);
+    assert!(key_of(&g) == Some(a[1]));
+    std::mem::forget(g);
+    std::mem::forget(c);
+    std::mem::forget(b);
 }
